@@ -81,6 +81,14 @@ def _path_case(vals, acc):
             got = 'raises ' + type(e).__name__
     if prev != got:
         got = 'unstable: %r then %r' % (prev, got)
+    elif isinstance(prev, list):
+        prev.append('scribbled-by-the-first-caller')
+        try:
+            third = strutils.split_path(path, minsegs, maxsegs, rwl)
+        except Exception as e:
+            third = 'raises ' + type(e).__name__
+        if third != want:
+            got = 'result shared between calls: %r' % (third,)
     if want != 'ValueError':
         acc.nontrivial(repr((path, minsegs, maxsegs, rwl)))
     if got != want:
@@ -110,6 +118,15 @@ def _list_case(vals, acc):
             got = 'raises ' + type(e).__name__
     if prev != got:
         got = 'unstable: %r then %r' % (prev, got)
+    elif isinstance(prev, list):
+        # what a caller does to the list it was handed must not reach the next caller
+        prev.append('scribbled-by-the-first-caller')
+        try:
+            third = strutils.split_by_commas(text)
+        except Exception as e:
+            third = 'raises ' + type(e).__name__
+        if third != items:
+            got = 'result shared between calls: %r' % (third,)
     if got != items:
         acc.fail('split_by_commas', {'text': text, 'got': got, 'want': items}, {'list': items})
 
